@@ -123,6 +123,7 @@ struct C02 : Property {
     stub_components = {"simk network/clock/allocator", "attacker and mutators (harness)", "R1 codec to build canaries"};
     assumptions = {"OSCORE-protected traffic as attack surface is covered in C14/C15 worlds; DTLS input in C19",
                    "uninitialised-value use is only visible where it turns into a crash or sanitizer report (no MSan: GnuTLS/libstdc++ are uninstrumented)"};
+    run_timeout_s = 20;      // a run takes milliseconds; one that does not come back is a hang
     quick_budget_s = 35;
     thorough_budget_s = 700;
     run_timeout_s = 60;
